@@ -47,3 +47,26 @@ pub fn show_recs(recs: &[Vec<u8>]) -> String {
 pub fn split_nonempty(s: &str, c: char) -> Vec<&str> {
     s.split(c).filter(|x| !x.is_empty()).collect()
 }
+
+/// entry token `<user>:<seq>:<op>:<value>`
+pub fn parse_entry(tok: &str) -> (Vec<u8>, u64, u8, Vec<u8>) {
+    let p: Vec<&str> = tok.split(':').collect();
+    (
+        parse_bytes(p[0]),
+        p[1].parse().unwrap(),
+        p[2].parse().unwrap(),
+        if p.len() > 3 { parse_bytes(p[3]) } else { vec![] },
+    )
+}
+
+pub fn show_entry(e: &(Vec<u8>, u64, u8, Vec<u8>)) -> String {
+    format!("x{}:{}:{}:x{}", hex(&e.0), e.1, e.2, hex(&e.3))
+}
+
+pub fn show_entries(es: &[(Vec<u8>, u64, u8, Vec<u8>)]) -> String {
+    if es.is_empty() {
+        "-".to_string()
+    } else {
+        es.iter().map(show_entry).collect::<Vec<_>>().join(",")
+    }
+}
